@@ -159,4 +159,110 @@ pub proof fn lemma_is_prime_dv(n: nat)
     }
 }
 
+
+// ---------------------------------------------------------------- segmented sieve (fbase::PrimeSieve)
+
+/// p divides the k-th number of the block that starts at `base`
+pub open spec fn marks(p: nat, base: int, k: int) -> bool { divides(p, (base + k) as nat) }
+
+/// one of sm[0..i] divides base + k
+pub open spec fn hit(sm: Seq<u32>, i: int, base: int, k: int) -> bool {
+    exists|j: int| 0 <= j < i && #[trigger] marks(sm[j] as nat, base, k)
+}
+
+/// sm holds exactly the primes below 2^16, in increasing order
+pub open spec fn small_table(sm: Seq<u32>) -> bool {
+    &&& all_prime(sm)
+    &&& increasing(sm)
+    &&& forall|j: int| 0 <= j < sm.len() ==> (#[trigger] sm[j]) < 65536
+    &&& forall|q: nat| #[trigger] is_prime_dv(q) && q < 65536 ==> in_list(sm, q as int)
+}
+
+/// r is the increasing list of all primes of [lo, lo + 65536)
+pub open spec fn primes_of_block(r: Seq<u32>, lo: int) -> bool {
+    &&& all_prime(r)
+    &&& increasing(r)
+    &&& forall|k: int| 0 <= k < r.len() ==> lo <= (#[trigger] r[k]) < lo + 65536
+    &&& forall|q: nat| #[trigger] is_prime_dv(q) && lo <= q < lo + 65536 ==> in_list(r, q as int)
+}
+
+/// a number of [2^16, 2^32) is prime iff no prime below 2^16 divides it
+pub proof fn lemma_segment_prime(sm: Seq<u32>, base: int, k: int)
+    requires small_table(sm), 65536 <= base + k < 0x1_0000_0000
+    ensures is_prime_dv((base + k) as nat) <==> !hit(sm, sm.len() as int, base, k)
+{
+    let x = (base + k) as nat;
+    if hit(sm, sm.len() as int, base, k) {
+        let j = choose|j: int| 0 <= j < sm.len() && #[trigger] marks(sm[j] as nat, base, k);
+        assert(is_prime_dv(sm[j] as nat));
+        assert(divides(sm[j] as nat, x));
+        assert(!is_prime_dv(x));
+    }
+    if !is_prime_dv(x) {
+        let d = lemma_prime_factor_le_sqrt(x);
+        assert(d < 65536) by (nonlinear_arith) requires d * d <= x, x < 0x1_0000_0000;
+        assert(in_list(sm, d as int));
+        let idx = choose|idx: int| 0 <= idx < sm.len() && #[trigger] sm[idx] as int == d as int;
+        assert(marks(sm[idx] as nat, base, k));
+        assert(hit(sm, sm.len() as int, base, k));
+    }
+}
+
+/// two multiples of p less than p apart are equal
+pub proof fn lemma_window1(p: nat, base: int, o: int, k: int)
+    requires p > 0, base >= 0, o >= 0, k >= 0, (base + o) % (p as int) == 0, marks(p, base, k), o <= k < o + p
+    ensures k == o
+{
+    lemma_same_residue_close(p, (base + o) as nat, (base + k) as nat);
+}
+
+/// no multiple of p below the first one
+pub proof fn lemma_window0(p: nat, base: int, o: int, k: int)
+    requires p > 0, base >= 0, 0 <= k < o < p, (base + o) % (p as int) == 0, marks(p, base, k)
+    ensures false
+{
+    lemma_same_residue_close(p, (base + k) as nat, (base + o) as nat);
+}
+
+pub proof fn lemma_next_multiple(p: nat, base: int, o: int)
+    requires p > 0, base >= 0, o >= 0, (base + o) % (p as int) == 0
+    ensures (base + (o + p)) % (p as int) == 0, marks(p, base, o)
+{
+    lemma_mod_add_multiples_vanish(base + o, p as int);
+    assert(p as int + (base + o) == base + (o + p));
+}
+
+/// p | base + o, p | base + k, o <= k < o + 3p  ==>  k is o, o + p or o + 2p
+pub proof fn lemma_window3(p: nat, base: int, o: int, k: int)
+    requires p > 0, base >= 0, o >= 0, (base + o) % (p as int) == 0, marks(p, base, k), o <= k < o + 3 * p
+    ensures k == o || k == o + p || k == o + 2 * p
+{
+    lemma_next_multiple(p, base, o);
+    lemma_next_multiple(p, base, o + p);
+    if k < o + p { lemma_window1(p, base, o, k); }
+    else if k < o + 2 * p { lemma_window1(p, base, o + p, k); }
+    else { lemma_window1(p, base, o + 2 * p, k); }
+}
+
+/// the offset stored by `PrimeSieve::new`: p - 1 - 65535 % p is the first multiple of p at or after 65536, relative to 65536
+pub proof fn lemma_first_offset(p: nat)
+    requires 1 <= p
+    ensures 0 <= p - 1 - 65535nat % p < p, (65536 + (p - 1 - 65535nat % p)) % (p as int) == 0
+{
+    lemma_fundamental_div_mod(65535, p as int);
+    lemma_mod_bound(65535, p as int);
+    let q = 65535int / (p as int); let r = 65535int % (p as int);
+    assert(65536 + (p - 1 - r) == (p as int) * (q + 1)) by (nonlinear_arith) requires 65535 == (p as int) * q + r;
+    lemma_mod_multiples_basic(q + 1, p as int);
+    assert((q + 1) * (p as int) == (p as int) * (q + 1)) by (nonlinear_arith);
+}
+
+
+/// block 0 of the segmented sieve is the table itself
+pub proof fn lemma_block0(sm: Seq<u32>)
+    requires small_table(sm)
+    ensures primes_of_block(sm, 0)
+{
+}
+
 } // verus!
